@@ -65,6 +65,9 @@ def SoundE (st : PState) (e : Expr) (st' : PState) : Prop :=
   Suf st' st ∧ st'.toks.length < st.toks.length ∧
   ∀ gf, st.toks.length + 1 ≤ st'.toks.length + gf → (eraseExpr e, abs st') ∈ gExpr gf (abs st)
 
+theorem SoundE_iff (st : PState) (e : Expr) (st' : PState) :
+    SoundE st e st' ↔ Sound eraseExpr gExpr 1 st e st' := Iff.rfl
+
 def SoundP (st : PState) (e : PrimaryExpr) (st' : PState) : Prop :=
   Suf st' st ∧ st'.toks.length < st.toks.length ∧
   ∀ gf, st.toks.length ≤ st'.toks.length + gf → (erasePrimary e, abs st') ∈ gPrimary gf (abs st)
@@ -88,26 +91,6 @@ theorem parseExpr_sound_step (pf : Nat)
   simp only [gExpr, bind_apply, List.mem_flatMap, Prod.exists, mem_many, pure_apply,
     List.mem_singleton, Prod.mk.injEq]
   exact ⟨_, _, hm1 g (by omega), _, _, ⟨hm2, by simp; omega⟩, by simp [eraseExpr], rfl⟩
-
-theorem parseDelimited_struct {α : Type} (stop : Token) (withCommas : Bool) (peeks : List Token)
-    (item : PState → PR α)
-    (hitem : ∀ st x st1, item st = .ok (x, st1) → Suf st1 st ∧ st1.toks.length < st.toks.length)
-    (fuel : Nat) (st : PState) (xs : List α) (st' : PState)
-    (h : parseDelimited stop withCommas peeks item fuel st = .ok (xs, st')) :
-    Suf st' st ∧ peekTok st' = some stop ∧ xs.length + st'.toks.length ≤ st.toks.length := by
-  cases withCommas with
-  | true =>
-    obtain ⟨a, b, c, _⟩ := parseDelimited_commas_sound stop peeks item id (fun _ => []) 0
-      (fun st x st1 hx => by
-        obtain ⟨a, b⟩ := hitem st x st1 hx
-        exact ⟨a, b, fun h => by omega⟩) fuel st xs st' h
-    exact ⟨a, b, c⟩
-  | false =>
-    obtain ⟨a, b, c, _⟩ := parseDelimited_nocommas_sound stop peeks item id (fun _ => []) 0
-      (fun st x st1 hx => by
-        obtain ⟨a, b⟩ := hitem st x st1 hx
-        exact ⟨a, b, fun h => by omega⟩) fuel st xs st' h
-    exact ⟨a, b, c⟩
 
 theorem parsePrimaryExpr_sound_step (hV : SemverAgree) (pf : Nat)
     (ihE : ∀ st e st', parseExpr pf st = .ok (e, st') → SoundE st e st')
